@@ -210,7 +210,7 @@ impl<R: Read> CharRead for CharReader<R> {
             // we need to read more data from the underlying stream
             // so that we can determine its validity
 
-            if self.buf.len() > 4 {
+            if self.pos > 4 {
                 // keep a prefix of 4 bytes so that we can put back at least one char
                 self.buf.drain(4..self.pos);
                 self.pos = 4;
